@@ -330,4 +330,13 @@ def segmentsLoop_legacy {σ : Type} (incRef : σ → Nat → σ × Bool) :
     if r.2 then segmentsLoop_legacy incRef r.1 rest (tt ++ [i])
     else (r.1, none)
 
+/-- `database.SelectSegments` (tsdb.go), the retention filter after `selectSegments`: every returned
+segment whose whole range lies before the TTL deadline is DecRef'ed and dropped, the others are kept
+in order. -/
+def filterLoop {σ : Type} (decRef : σ → Nat → σ) (expired : Nat → Bool) : σ → List Nat → List Nat → σ × List Nat
+  | w, [], kept => (w, kept)
+  | w, i :: rest, kept =>
+    if expired i then filterLoop decRef expired (decRef w i) rest kept
+    else filterLoop decRef expired w rest (kept ++ [i])
+
 end Banyan.C14
